@@ -41,9 +41,10 @@ type S struct {
 	// expected reconnects: successful re-dials after involuntary drops
 	reconnects int64
 	unsettled  bool
+	bad        bool
 }
 
-func (s *S) fail(what, kase string) { s.c.Fail(what, s.name+" "+kase) }
+func (s *S) fail(what, kase string) { s.bad = true; s.c.Fail(what, s.name+" "+kase) }
 
 func (s *S) must(ok bool, what string) bool {
 	if !ok {
@@ -235,6 +236,12 @@ func (s *S) finish() {
 	}
 	for _, c := range e.Calls() {
 		s.c.Count("result:" + genx.ResName(c.Res))
+	}
+	if s.bad {
+		// the history already failed an implementation-level oracle (reported with its own
+		// case): the monitor would only repeat it as a correspondence mismatch
+		s.c.Count("scenario-failed:" + s.name)
+		return
 	}
 	line := "H " + s.name + " | " + genx.Line(evs)
 	s.c.Case(line, line, len(evs) > 3)
@@ -502,6 +509,25 @@ func coldConnect(c *vh.Ctx, k int) {
 	}
 }
 
+// scenario (SECS-I): Close is called the instant the peer's ACK of a block got through, iters times.
+// The library's Write waits on {engine result | generation done} with an unordered select, so the
+// acknowledged block may be reported as ErrConnClosed and left out of the data-sent counter
+// (known finding C20-secs1-acked-block-uncounted when it shows).
+func closeAfterAck(c *vh.Ctx, iters int) {
+	for it := 0; it < iters; it++ {
+		s := newS(c, "close-after-ack", genx.DefaultOptions(), func(p *genx.Peer) { p.Mute.Store(true) })
+		e := s.e
+		if s.must(e.Open(5*time.Second) == nil, "open") {
+			bg := context.Background()
+			cs := []*genx.Call{e.Start(genx.KSyncW, bg), e.Start(genx.KSyncW, bg)}
+			s.must(waitFor(5*time.Second, func() bool { return cs[0].OnWire() && cs[1].OnWire() }), "primaries acknowledged")
+			_ = e.Conn.Close()
+			s.wait(cs...)
+		}
+		s.finish()
+	}
+}
+
 // scenario: Close with sends in flight, reopen, more sends (Close is not a reconnect).
 func closeReopen(c *vh.Ctx) {
 	s := newS(c, "close-reopen", genx.DefaultOptions(), func(p *genx.Peer) {
@@ -720,6 +746,9 @@ func main() {
 		gatedReconnect(c, 1+r.Intn(2))
 		coldConnect(c, 1+r.Intn(2))
 		closeReopen(c)
+		if s1() {
+			closeAfterAck(c, 10)
+		}
 	}
 	for i := 0; i < c.N; i++ {
 		random(c, r, i)
